@@ -943,6 +943,19 @@ def module_ir(tree: ast.Module, main_name: str):
     # plain local assignments in front of the return (`key = ...`, `variant = helper(...)`) are folded into it; the names
     # they bind are recorded: a field of the same name would be overwritten by them
     main_locals = []
+    # `a, b = x, y` in front of the return is the same as `a = x; b = y` when no right-hand side reads a target bound earlier in
+    # the same statement (simultaneous assignment)
+    flat_ = []
+    for s_ in rest:
+        if (isinstance(s_, ast.Assign) and len(s_.targets) == 1 and isinstance(s_.targets[0], ast.Tuple) and isinstance(s_.value, ast.Tuple)
+                and len(s_.targets[0].elts) == len(s_.value.elts) and all(isinstance(t_, ast.Name) for t_ in s_.targets[0].elts)):
+            names_ = [t_.id for t_ in s_.targets[0].elts]
+            if all(not any(isinstance(n_, ast.Name) and n_.id in names_[:j_] for n_ in ast.walk(v_)) for j_, v_ in enumerate(s_.value.elts)):
+                for t_, v_ in zip(s_.targets[0].elts, s_.value.elts):
+                    flat_.append(ast.copy_location(ast.Assign(targets=[ast.Name(id=t_.id, ctx=ast.Store())], value=v_), s_))
+                continue
+        flat_.append(s_)
+    rest = flat_
     if rest and isinstance(rest[-1], ast.Return) and all(
             isinstance(s_, ast.Assign) and len(s_.targets) == 1 and isinstance(s_.targets[0], ast.Name) for s_ in rest[:-1]):
         import copy as _copy
